@@ -1456,6 +1456,21 @@ def report_suite(run, scratch, seed, n, name="reports"):
                 run.known_seen.add("c18_K17_round_trip_not_listed")
                 rt_ok += 1
                 continue
+        if msg and msg.startswith("values") and '"replay"' in json.dumps(c["tree"]):
+            # K18: the run itself executed a blotter with several rows of one security booked on one date; the list
+            # it reports has one row per security and date
+            alld = [c["dates"][0] - 86400] + list(c["dates"])
+            booked = {}
+            for _, a in c.get("adata", []):
+                if a[0] == "trans":
+                    for row in a[1]:
+                        day = next((dd for dd in alld if dd >= row[0]), None)
+                        if day is not None and day != alld[0]:
+                            booked[(day, row[1])] = booked.get((day, row[1]), 0) + 1
+            if any(v_ > 1 for v_ in booked.values()):
+                run.known_seen.add("c18_K18_same_day_trades_merged")
+                rt_ok += 1
+                continue
         if msg and msg.startswith("values") and c.get("bidoffer") and c["comm"][0] in ("prop", "maxflat"):
             # K16: the original charges the fee on the mid price, the replay on the spread-inclusive custom price
             run.known_seen.add("c18_K16_fee_on_custom_price")
@@ -1554,6 +1569,8 @@ def wiring_oracle(c, nodes_pre, nodes_post):
         else:
             want_t = list(data_cols)
         got = n.get("univ", [])
+        if got and got[0].startswith("<"):
+            continue                      # the node has no current date yet (a run that stopped early): nothing to read
         got_t = [x for x in got if x not in subs]
         if got_t != want_t:
             fails.append("universe of %s holds tickers %s, declared %s" % (n["full"], got_t, want_t))
@@ -1618,7 +1635,7 @@ def wiring_suite(run, scratch, seed, n):
                     count(kk, dep + 1)
         if not c["name"].endswith("_eager"):
             count(c["tree"], 0)
-        if k == "completed" and w:
+        if len(w) == 2:
             fails = wiring_oracle(c, w["WJSON pre"], w["WJSON post"])
             if fails:
                 bad += 1
